@@ -76,6 +76,12 @@ def replay_finding(pid, finding, build, env):
             return "no-replay", None, err
         path = artifact(pid, finding, {"lie-establish": r})
         return ("reproduced" if r.get("reproduced") else "not-reproduced"), path, r.get("detail", "")
+    if kind == "lie-pay":
+        r, err = run_rp(build, env, "lie-pay", {"delta": rp.get("delta", {}), "cb": rp.get("cb"), "mb": rp.get("mb"), "amount": rp.get("amount")})
+        if r is None:
+            return "no-replay", None, err
+        path = artifact(pid, finding, {"lie-pay": r})
+        return ("reproduced" if r.get("reproduced") else "not-reproduced"), path, r.get("detail", "")
     if kind == "none":
         # findings observed on a concrete (shadow-valued) run of the real code over the stand-in: the shadow assignment is
         # the counterexample; same evidential level as a natively re-checked solver model
